@@ -56,6 +56,8 @@ type c13run struct {
 	hist      []obs
 	seed      int64
 	name      string
+	n2        *daemon.Daemon   // executor node for remote units (nil: none)
+	inproc    bool             // the daemon also offers the in-process work type
 	unitTrace []map[string]any // per unit: reset + apply events for WorkUnitTrace.tla
 }
 
@@ -140,9 +142,7 @@ func (r *c13run) client(ci int, nops int, wg *sync.WaitGroup) {
 	}
 	for k := 0; k < nops; k++ {
 		if !d.Alive() {
-			r.mu.Lock()
-			r.res.Inconclusive = append(r.res.Inconclusive, r.name+": daemon died during the history")
-			r.mu.Unlock()
+			r.res.inconclusive(r.name + ": daemon died during the history")
 
 			return
 		}
@@ -151,13 +151,27 @@ func (r *c13run) client(ci int, nops int, wg *sync.WaitGroup) {
 		switch {
 		case x < 22 || u == nil:
 			kinds := []string{"quick", "quick", "long", "fail", "instant"}
+			if r.n2 != nil {
+				kinds = append(kinds, "remote", "remote", "remote-long")
+			}
+			if r.inproc {
+				kinds = append(kinds, "inproc", "inproc", "inproc-long")
+			}
 			kind := kinds[rng.Intn(len(kinds))]
-			script := map[string]string{"quick": quickScript, "long": longScript, "fail": failScript, "instant": instantScript}[kind]
+			script := map[string]string{"quick": quickScript, "long": longScript, "fail": failScript, "instant": instantScript,
+				"remote": quickScript, "remote-long": longScript, "inproc": "3 120\n", "inproc-long": "8 500\n"}[kind]
+			node, wtype := "localhost", "sh"
+			if strings.HasPrefix(kind, "remote") {
+				node = "n2"
+			}
+			if strings.HasPrefix(kind, "inproc") {
+				wtype = "inproc"
+			}
 			c, err := d.Dial(20 * time.Second)
 			if err != nil {
 				continue
 			}
-			sr, err := c.Submit("localhost", "sh", "", []byte(script), 90*time.Second, nil)
+			sr, err := c.Submit(node, wtype, "", []byte(script), 90*time.Second, nil)
 			c.Close()
 			if err != nil || sr == nil || !sr.Acked {
 				r.note(ci, "submit", "", fmt.Sprint(err))
@@ -250,6 +264,23 @@ func (r *c13run) client(ci int, nops int, wg *sync.WaitGroup) {
 				r.mu.Unlock()
 				delete(last, u.id)
 				// ReleaseRemoves: files gone, no longer known
+				if strings.HasPrefix(u.kind, "remote") {
+					// a started remote unit is removed by a goroutine AFTER the remote side has confirmed: measure the lag
+					lag := 0
+					for ; lag < 100; lag++ {
+						_, serr := os.Stat(d.UnitDir(u.id))
+						m, et, err := statusOf(d, u.id, 30*time.Second)
+						if serr != nil && err == nil && m == nil && strings.Contains(et, "unknown work unit") {
+							break
+						}
+						time.Sleep(100 * time.Millisecond)
+					}
+					if lag > 0 && lag < 100 {
+						r.viol("C13:remote-release-answered-before-removal", fmt.Sprintf("remote unit %s: 'work %s' answered {\"released\":...} while the unit was still known and its directory still existed; both were gone about %d ms later", u.id, cmd, lag*100))
+
+						continue
+					}
+				}
 				if _, err := os.Stat(d.UnitDir(u.id)); err == nil {
 					r.viol("C13:release-leaves-files", fmt.Sprintf("unit %s released but its directory still exists", u.id))
 				}
@@ -265,7 +296,7 @@ func (r *c13run) client(ci int, nops int, wg *sync.WaitGroup) {
 			}
 		default:
 			r.mu.Lock()
-			skip := u.cancelled || u.relAsked || u.kind == "long"
+			skip := u.cancelled || u.relAsked || strings.HasSuffix(u.kind, "long")
 			r.mu.Unlock()
 			if skip {
 				continue // results of cancelled units never end (C05 finding); long ones take too long here
@@ -296,34 +327,18 @@ func isChildOf(pid int, d *daemon.Daemon, id string) bool {
 
 // checkTrace: every status rewrite of every unit (the sf_apply observer), plus the lock discipline of every status file
 func (r *c13run) checkTrace() (applies int, files []*sftrace.FileTrace) {
-	evs := traceEvents(r.d.Trace)
-	runnerPid := map[int64]bool{}
-	for _, e := range evs {
-		if e.Str("ev") == "rn_begin" {
-			runnerPid[e.Int("p")] = true
-		}
+	a, f := r.checkTraceFile(r.d.Trace)
+	if r.n2 != nil {
+		a2, f2 := r.checkTraceFile(r.n2.Trace)
+		a, f = a+a2, append(f, f2...)
 	}
-	perUnit := map[string][]map[string]any{}
-	var unitOrder []string
-	for _, e := range evs {
-		if e.Str("ev") != "sf_apply" {
-			continue
-		}
-		who := "d"
-		if runnerPid[e.Int("p")] {
-			who = "r"
-		}
-		f := e.Str("file")
-		if perUnit[f] == nil {
-			unitOrder = append(unitOrder, f)
-		}
-		perUnit[f] = append(perUnit[f], map[string]any{"ev": "apply", "who": who, "ost": e.Int("old_state"), "osz": e.Int("old_size"),
-			"nst": e.Int("new_state"), "nsz": e.Int("new_size"), "z": e.Int("fsize") == 0})
-	}
-	for _, f := range unitOrder {
-		r.unitTrace = append(r.unitTrace, map[string]any{"ev": "reset", "who": "", "ost": 0, "osz": 0, "nst": 0, "nsz": 0, "z": false})
-		r.unitTrace = append(r.unitTrace, perUnit[f]...)
-	}
+
+	return a, f
+}
+
+func (r *c13run) checkTraceFile(tracePath string) (applies int, files []*sftrace.FileTrace) {
+	evs := traceEvents(tracePath)
+	r.unitTrace = append(r.unitTrace, sftrace.UnitRewrites(evs, false)...)
 	for _, e := range evs {
 		if e.Str("ev") != "sf_apply" {
 			continue
@@ -383,14 +398,33 @@ func (r *c13run) waitQuiet(limit time.Duration) {
 
 // ---------------------------------------------------------------- scenarios
 
-func history(res *Result, bin, base string, seed int64, clients, nops int) (*c13run, []*sftrace.FileTrace) {
+func history(res *Result, bin, base string, seed int64, clients, nops int, remote, inproc bool) (*c13run, []*sftrace.FileTrace) {
 	name := fmt.Sprintf("history-s%d", seed)
 	d := daemon.New(bin, filepath.Join(base, name), "n1")
+	d.Inproc = inproc
 	_ = os.RemoveAll(d.Dir)
-	r := &c13run{res: res, d: d, seed: seed, name: name}
+	r := &c13run{res: res, d: d, seed: seed, name: name, inproc: inproc}
 	defer d.Cleanup()
+	if remote {
+		n2, err := startExecutor(bin, d.Dir, d)
+		if n2 != nil {
+			n2.Inproc = false
+			defer n2.Cleanup()
+		}
+		if err != nil {
+			res.inconclusive(name + ": " + err.Error())
+
+			return r, nil
+		}
+		r.n2 = n2
+	}
 	if err := d.Start(60 * time.Second); err != nil {
-		res.Inconclusive = append(res.Inconclusive, name+": start: "+err.Error())
+		res.inconclusive(name + ": start: " + err.Error())
+
+		return r, nil
+	}
+	if remote && !waitRoute(d, "n2", 60*time.Second) {
+		res.inconclusive(name + ": no route to n2")
 
 		return r, nil
 	}
@@ -419,7 +453,7 @@ func burst(res *Result, bin, base string, seed int64, clients, each int) []*sftr
 	r := &c13run{res: res, d: d, seed: seed, name: name}
 	defer d.Cleanup()
 	if err := d.Start(60 * time.Second); err != nil {
-		res.Inconclusive = append(res.Inconclusive, name+": start: "+err.Error())
+		res.inconclusive(name + ": start: " + err.Error())
 
 		return nil
 	}
@@ -487,7 +521,7 @@ func cancelRace(res *Result, bin, base string, seed int64, attempts int) []*sftr
 	r := &c13run{res: res, d: d, seed: seed, name: name}
 	defer d.Cleanup()
 	if err := d.Start(60 * time.Second); err != nil {
-		res.Inconclusive = append(res.Inconclusive, name+": start: "+err.Error())
+		res.inconclusive(name + ": start: " + err.Error())
 
 		return nil
 	}
@@ -530,7 +564,7 @@ func cancelRace(res *Result, bin, base string, seed int64, attempts int) []*sftr
 		select {
 		case <-done:
 		case <-time.After(60 * time.Second):
-			res.Inconclusive = append(res.Inconclusive, name+": cancel did not answer in 60 s")
+			res.inconclusive(name + ": cancel did not answer in 60 s")
 		}
 		res.count("cancel_race_attempts", 1)
 		for _, e := range traceEvents(d.Trace) {
@@ -564,6 +598,7 @@ func c13Main(args []string) {
 	base := fs.String("dir", "/verif/.work/C13/runs", "scratch")
 	seed := fs.Int64("seed", 1, "seed")
 	histories := fs.Int("histories", 2, "number of seeded histories")
+	inprocBin := fs.String("inproc-bin", "", "receptor-inproc binary (histories with odd index use it and its in-process work type)")
 	nops := fs.Int("ops", 14, "operations per client")
 	clients := fs.Int("clients", 3, "clients per history")
 	_ = fs.Parse(args)
@@ -577,13 +612,23 @@ func c13Main(args []string) {
 		wg.Add(1)
 		go func(h int) {
 			defer wg.Done()
-			r, files := history(res, *bin, *base, *seed*100+int64(h), *clients, *nops)
+			hb, inproc := *bin, false
+			if *inprocBin != "" && h%2 == 1 {
+				hb, inproc = *inprocBin, true
+			}
+			r, files := history(res, hb, *base, *seed*100+int64(h), *clients, *nops, h%2 == 0, inproc)
 			mu.Lock()
 			runs = append(runs, r)
 			all = append(all, files...)
 			mu.Unlock()
 		}(h)
 	}
+	wg.Add(1)
+	go func() {
+		defer wg.Done()
+		releaseRequery(res, *bin, *base, *seed)
+		listRace(res, *bin, *base, *seed, 3, 3, 12)
+	}()
 	wg.Add(2)
 	go func() {
 		defer wg.Done()
